@@ -524,7 +524,7 @@ def gen_invoke_case(rng):
 
 
 def generate(rng, tier, scale, **focus):
-    n = (900 if tier == 'quick' else 30000) * scale
+    n = (1600 if tier == 'quick' else 30000) * scale
     maxlen = 3 if tier == 'quick' else 4
     for i in range(n):
         if i % 8 == 7:
